@@ -22,14 +22,24 @@ def body_deductive(rep):
                     '(side by side in lean/THEOREMS.md)']
 
 
-def parse_deductive(rep):
-    """visitor: grammar alternative of `predicateexpression` -> AST node (C06, C05): ',' conjunction, '->' if-then,
-    ';' disjunction, '\\+' negation, parentheses transparent"""
+PARSE_BODY = ['visitPredicateexpression', 'visitSimplepredicate', 'visitTermpredicate']
+PARSE_TERM = ['visitTerm', 'visitAtom', 'visitFunctor', 'visitTermlist']
+
+
+def parse_deductive(rep, funs=None):
+    """visitor: parse tree (one datatype constructor per grammar alternative, spec/parse.smt2) -> clause AST.
+    Bodies (C06, C05, C12): ',' conjunction, '->' if-then, ';' disjunction, '\\+' negation, parentheses transparent, a goal is
+    never the internal $CUTIF marker.  Terms (C16, C01): every literal form denotes its term, `_` are numbered left to right."""
     from ..pyvc.theory_visitor import ParseTheory
-    fw.deductive(rep, ['yp_prolog_visitor.YPPrologVisitor.' + f for f in ('visitPredicateexpression', 'visitSimplepredicate', 'visitTermpredicate')],
-                 ['visitor'], ['control.smt2'], theory=ParseTheory)
-    rep.assumptions.append('visitTerm returns the term AST tpterm(node) (assumed contract; bounded-checked by the reader differential); '
-                           'arguments of exception constructors are not evaluated; the parse tree is a derivation of prolog.g4 with op in {",", "->", ";", "\\+"} (A-EXT-ANTLR)')
+    fw.deductive(rep, ['yp_prolog_visitor.YPPrologVisitor.' + f for f in (funs or PARSE_BODY + PARSE_TERM)],
+                 ['visitor_parse'], ['control.smt2', 'parse.smt2'], theory=ParseTheory)
+    fw.add_smt(rep, lemmas.prove_parse_lemmas(), 'spec.parse-lemmas')
+    rep.lemmas.append('L-TCNT-NONNEG, L-PECNT-NONNEG (induction), L-WF-PAIRS (unfolding): lemmas of spec/parse.smt2 (SMT)')
+    rep.assumptions.append('A-EXT-ANTLR (visitor): the parse tree is a derivation of prolog.g4 (datatypes TT/SP/PE of spec/parse.smt2: one '
+                           'constructor per alternative, token texts in their lexer classes); terms of the forms name/arity and '
+                           'numeral(...) are outside the contracts (the compiler rejects them with an AttributeError: observed, bounded); '
+                           'arguments of exception constructors are not evaluated; visitVARIABLE/unquoteString enter with the abstraction '
+                           'of their string-theory contracts (contracts/visitor.py)')
 
 
 CLAUSE_TARGETS = ['yp_generator.YPPrologCompiler.' + f for f in (
